@@ -415,6 +415,7 @@ func (vc *VC) script(ob *Obligation, opts scriptOpts) string {
 		if len(modelVars) > 400 {
 			modelVars = modelVars[:400]
 		}
+		modelVars = append(modelVars, lits...)
 		fmt.Fprintf(&out, "(get-value (%s))\n", strings.Join(modelVars, " "))
 	}
 	return out.String()
